@@ -132,7 +132,7 @@ def reset_paths(ctx):
     for l in loops:
         for c in [c for c in calls_in(l) if call_attr(c) == 'setRemoteLogging']:
             conds = [src(a.test) for a in ancestors(c) if isinstance(a, ast.If) and any(a is x for x in ast.walk(l))]
-            ctx.check(not conds and src(l.iter).startswith('self.secnode.modules'), f'{sal.qualname}:same module domain as handle_logging', c,
+            ctx.check(not conds and src(resolved(l.iter, sal.node)).startswith('self.secnode.modules'), f'{sal.qualname}:same module domain as handle_logging', c,
                       'unconditional over secnode.modules',
                       f'the level is applied only when {conds}: handle_logging accepts every module by name, so a subscription on a skipped module '
                       'is never switched off by `logging . off`, *IDN? or disconnect', sal)
@@ -141,7 +141,8 @@ def reset_paths(ctx):
         ctx.analysed(f)
         cfg = CFG(f.node, m, f.module)
         cs = [i for c in func_calls(f.node, attr='reset_connection') if c.args and src(c.args[0]) == 'conn' for i in cfg.node_of(c)]
-        ok = bool(cs) and cfg.all_paths_pass([cfg.entry], [cfg.exit], cs, exc=False)
+        # normal returns after a caught exception count as well (`except ValueError: return`); uncaught ones leave by the other exit
+        ok = bool(cs) and cfg.all_paths_pass([cfg.entry], [cfg.exit], cs, exc=True)
         ctx.check(ok, f'{f.qualname}:reaches reset_connection', f.node, 'every normal path calls reset_connection(conn)',
                   'a normal path does not call reset_connection(conn): log messages keep flowing after *IDN? / disconnect', f)
     fin = m.method(roles.HANDLER, 'finish', inherited=False)
@@ -263,3 +264,41 @@ def retention_keeps_newest(ctx):
         guarded = set(rcfg.node_of(c)) <= sides_with_fact(rcfg, lambda a, tv: tv and src(a).endswith('max_days'))
         ctx.check(guarded, f'{f.qualname}:retention only when configured', c, 'guarded by self.max_days',
                   'files are removed even when no retention is configured (max_days == 0 would delete `files[:-0]` = nothing / everything)', f)
+
+
+@rule('C20.R5', min_instances=1)
+def handler_search_follows_the_records(ctx):
+    """Module.setRemoteLogging (with its helpers) finds the RemoteLogHandler by walking up the logger chain the way log
+    records travel: the handlers of a logger are inspected, then ITS propagate flag decides whether the parent is looked at.
+    Between re-binding the chain variable (`log = log.parent`) and reading `.propagate` the handlers of the new logger must
+    have been inspected - otherwise the own logger's propagate=False is ignored (a connection is subscribed on a handler
+    that never sees the records) or a parent that does carry the handler is skipped (logging / *IDN? / disconnect fail)"""
+    m = ctx.m
+    f = m.method(roles.MODULE, 'setRemoteLogging', inherited=False)
+    units = [f] + [h for site, h in helper_methods_called(m, f)]
+    n = 0
+    for u in units:
+        props = [x for x in body_walk(u.node) if isinstance(x, ast.Attribute) and x.attr == 'propagate' and isinstance(x.value, ast.Name)]
+        if not props:
+            continue
+        ctx.analysed(u)
+        cfg = CFG(u.node, m, u.module)
+        for p_ in props:
+            var = p_.value.id
+            rebinds = [i for v, st, how in local_assigns(u.node, var) if how == 'assign' and v is not None and '.parent' in src(v) for i in cfg.node_of(st)]
+            inspects = [i for x in body_walk(u.node) if isinstance(x, ast.Attribute) and x.attr == 'handlers' and src(x.value) == var for i in cfg.node_of(x)]
+            reads = list(cfg.node_of(p_))
+            if not rebinds or not inspects or not reads:
+                ctx.undecided(f'{u.qualname}:propagate is read from the logger whose handlers were inspected', p_, 'chain walk not recognised', u)
+                continue
+            n += 1
+            # a re-binding that reads the flag in its own statement (`log = log.parent if log.propagate else None`) reads the old logger
+            rb = [i for i in rebinds if i not in reads]
+            ok = cfg.all_paths_pass(rb, reads, inspects, exc=False)
+            ctx.check(ok, f'{u.qualname}:propagate is read from the logger whose handlers were inspected', p_,
+                      f'every path from `{var} = {var}.parent` to `{src(p_)}` inspects `{var}.handlers` first',
+                      f'`{src(p_)}` can be read right after `{var}` was re-bound to its parent, before the handlers of that logger were inspected: the flag of the '
+                      'wrong logger decides - the module logger\'s own propagate=False is ignored and a parent with propagate=False that carries the handler is '
+                      'skipped ("remote handler not found" on logging, *IDN? and disconnect)', u)
+    if not n:
+        raise AnchorMissing('walk up the logger chain (.handlers / .propagate / .parent) not found in setRemoteLogging')
